@@ -423,6 +423,29 @@ fn convert_checks<T: CoordNum + std::fmt::Debug>(kind: u8, v: &[Coord<T>], rect:
             if back.ok() != Some(t) {
                 obs.fail(format!("{tname}|Triangle->Geometry->Triangle|roundtrip"), format!("op {i}: {:?}", t));
             }
+            // the same for a triangle stored in its given (possibly clockwise) order: the tuple constructor and
+            // From<[_; 3]> do not re-order, and no conversion may
+            for raw in [Triangle(g(0), g(1), g(2)), Triangle::from([g(0), g(1), g(2)])] {
+                obs.cmp();
+                if (raw.0, raw.1, raw.2) != (g(0), g(1), g(2)) || raw.to_array() != [g(0), g(1), g(2)] {
+                    obs.fail(format!("{tname}|Triangle(raw)|vertices-reordered"), format!("op {i}: {:?}", raw));
+                }
+                let p: Polygon<T> = raw.into();
+                obs.cmp();
+                if p.exterior().0 != vec![raw.0, raw.1, raw.2, raw.0] || p != raw.to_polygon() {
+                    obs.fail(format!("{tname}|Triangle(raw)->Polygon|coords"), format!("op {i}: {:?} -> {:?}", raw, p));
+                }
+                let back: Result<Triangle<T>, _> = Geometry::from(raw).try_into();
+                obs.cmp();
+                if back.ok() != Some(raw) {
+                    obs.fail(format!("{tname}|Triangle(raw)->Geometry->Triangle|roundtrip"), format!("op {i}: {:?}", raw));
+                }
+                let lines = raw.to_lines();
+                obs.cmp();
+                if lines != [Line::new(raw.0, raw.1), Line::new(raw.1, raw.2), Line::new(raw.2, raw.0)] {
+                    obs.fail(format!("{tname}|Triangle::to_lines|wrong"), format!("op {i}: {:?} -> {:?}", raw, lines));
+                }
+            }
         }
         2 => {
             let l = Line::new(g(0), g(1));
